@@ -22,7 +22,7 @@ func VerifC06RegistryAcrossGenesis() {
 	n := rt.IntRange("relayers", 2, 3)
 	var addrs []string
 	for i := 0; i < n; i++ {
-		a := rt.StrN("relayer.address", 3)
+		a := rt.StrN("relayer.address", 8) // the shortest strings bech32 admits
 		for _, o := range addrs {
 			rt.Assume(o != a)
 		}
@@ -33,6 +33,8 @@ func VerifC06RegistryAcrossGenesis() {
 			chains = append(chains, rt.Str("relayer.chain"))
 			cps = append(cps, rt.Str("relayer.counterparty"))
 		}
+		// what every registered relayer satisfies: the registration proposal was validated at submission
+		rt.Assume((&types.RegisterRelayerProposal{Title: "t", Description: "d", Address: a, Chains: chains, Addresses: cps}).ValidateBasic() == nil)
 		k.RegisterRelayers(src, a, chains, cps)
 	}
 	q := rt.Str("queried.chain")
